@@ -86,9 +86,12 @@ var probed string
 
 const probeSeed = "000102030405060708090a0b0c0d0e0f101112131415161718191a1b1c1d1e1f"
 
-// probeQuirks runs five tiny scenarios on the real code and reports which of the tree-dependent behaviours
-// (DESIGN §7 F2, F3, O1 and the two found by this engine) the working tree shows.  The Lean model takes these
-// as its configuration; the property oracles do NOT depend on them.
+// probeQuirks runs a few tiny scenarios on the real code and reports which of the defects fixed in the official
+// tree (DESIGN §7 F2, F3, O1, secret taproot rows, missing lastaccount row) the working tree shows again.  It is a
+// guard only: the result is written into every `create … q=<flags>` line (so a replay file names the reverted fix)
+// and keeps the generator away from scopes whose account 0 was clobbered.  The Lean model is the fixed tree and
+// ignores it; the property oracles never look at it — a reverted fix is reported by the oracle at the op where it
+// bites (and, on top, as a Go↔Lean disagreement).
 func probeQuirks() string {
 	probeOnce.Do(func() {
 		var q []string
@@ -244,7 +247,13 @@ func (g *gstate) step() {
 		if a.x {
 			g.tags["extend.xpub-account"] = true
 		}
-	case k < 46: // lookup of a chained address
+	case k < 46: // lookup of a chained address; sometimes the transaction store records a payment to one
+		if rng.Intn(5) == 0 {
+			sc, ref := g.chainRef(true)
+			g.add("rectx s=%s ref=%s", sc, ref)
+			g.tags["tx-recorded"] = true
+			return
+		}
 		sc, ref := g.chainRef(rng.Intn(8) != 0)
 		h := g.h()
 		g.add("lookup s=%s ref=%s h=%d", sc, ref, h)
@@ -563,6 +572,14 @@ func directed(rng *rand.Rand, q string) []core.Case {
 		ops := []string{fmt.Sprintf("create seed=%x q=%s", seed, q)}
 		out = append(out, core.Case{Ops: append(ops, lines...), Tags: []string{"directed." + tag}})
 	}
+	// a custom scope, then the first accounts in it: account numbers continue after the default account (the
+	// `lastaccount` row written by NewScopedKeyManager), indices of account 0 survive, also across a restart
+	for _, cs := range []string{"1001:1", "1017:0"} {
+		mk("custom-scope-first-accounts", "unlock p=0", "newscope s="+cs+" ext=4 int=4", "next s="+cs+" a=0 n=2 int=0 h=1",
+			"newacct s="+cs+" name=2", "newxpub s="+cs+" name=3 x=1 ci=2147483649 fp=7 schema=-", "next s="+cs+" a=1 n=1 int=0 h=3",
+			"next s="+cs+" a=2 n=1 int=1 h=4", "next s="+cs+" a=0 n=1 int=0 h=5", "props s="+cs+" a=0", "restart", "props s="+cs+" a=0",
+			"props s="+cs+" a=1", "next s="+cs+" a=0 n=1 int=0 h=6", "unlock p=0", "lookup s="+cs+" ref=c:0:0:2 h=7", "privkey h=7")
+	}
 	for _, sc := range []string{"84:0", "44:0", "49:0", "86:0"} {
 		// addresses of two accounts created while locked, in both orders, then unlocked (derive-on-unlock)
 		mk("derive-on-unlock-two-accounts", "unlock p=0", "newacct s="+sc+" name=2", "newacct s="+sc+" name=3", "lock",
@@ -575,6 +592,13 @@ func directed(rng *rand.Rand, q string) []core.Case {
 			"extend s="+sc+" a=0 last=6 int=1", "next s="+sc+" a=0 n=1 int=0 h=6", "restart", "props s="+sc+" a=0",
 			"next s="+sc+" a=0 n=2 int=0 h=7", "next s="+sc+" a=0 n=1 int=1 h=9", "unlock p=0", "lookup s="+sc+" ref=c:0:0:2 h=10", "privkey h=10",
 			"restart", "props s="+sc+" a=0", "next s="+sc+" a=0 n=1 int=0 h=11")
+		// C04 boundary: issue, record a transaction (public material enters the file through wtxmgr only), keep
+		// using the address manager in every lock state, convert, reopen
+		mk("tx-recorded-boundary", "next s="+sc+" a=0 n=2 int=0 h=1", "rectx s="+sc+" ref=c:0:0:0", "markused s="+sc+" ref=c:0:0:0",
+			"unlock p=0", "next s="+sc+" a=0 n=1 int=1 h=3", "rectx s="+sc+" ref=c:0:1:0", "importpriv s="+sc+" k=1 comp=1 h=4",
+			"importscript s="+sc+" k=1 kind=1 secret=1 h=5", "newacct s="+sc+" name=2", "next s="+sc+" a=1 n=1 int=0 h=6", "rectx s="+sc+" ref=c:1:0:0",
+			"chpass priv=1 old=0 new=1", "lock", "lookup s="+sc+" ref=c:0:0:1 h=7", "restart", "lookup s="+sc+" ref=c:0:0:0 h=8", "rectx s="+sc+" ref=c:0:0:1",
+			"convertwo", "restart", "lookup s="+sc+" ref=c:1:0:0 h=9", "next s="+sc+" a=0 n=1 int=0 h=10")
 		// imports in every lock state, conversion, reopen, imports again
 		mk("imports-lock-states", "importpriv s="+sc+" k=1 comp=1 h=1", "importscript s="+sc+" k=1 kind=0 secret=1 h=2",
 			"importscript s="+sc+" k=2 kind=1 secret=0 h=3", "importpub s="+sc+" k=2 h=4", "unlock p=0", "importpriv s="+sc+" k=3 comp=0 h=5",
